@@ -1,6 +1,8 @@
 import BreezyVerif.Model.C18
 import BreezyVerif.Generated.C18
-/-! C18 — T1 tie: definitions regenerated from the current source equal the model. -/
+/-! C18 — T1 tie: the definitions regenerated from the current source of
+`Merge3Merger._three_way` and `Merge3Merger._lca_multi_way` equal the model
+(for every value type, every LCA list, both flag values). -/
 namespace BreezyVerif.C18
 variable {α : Type} [DecidableEq α]
 
@@ -8,5 +10,116 @@ variable {α : Type} [DecidableEq α]
 theorem three_way_gen_eq (b o t : α) : threeWayGen b o t = threeWay b o t := by
   unfold threeWayGen threeWay
   grind
+
+/-- `set(l)` has the members of `l` -/
+theorem mem_pySet (x : α) (l : List α) : x ∈ pySet l ↔ x ∈ l := by
+  induction l with
+  | nil => simp [pySet]
+  | cons y ys ih =>
+    have hc : pySet (y :: ys) = if y ∈ pySet ys then pySet ys else y :: pySet ys := rfl
+    rw [hc]
+    by_cases h : y ∈ pySet ys
+    · rw [if_pos h, ih, List.mem_cons]
+      constructor
+      · exact Or.inr
+      · rintro (rfl | h')
+        · exact ih.mp h
+        · exact h'
+    · rw [if_neg h, List.mem_cons, List.mem_cons, ih]
+
+theorem pySet_eq_nil (l : List α) : pySet l = [] ↔ l = [] := by
+  constructor
+  · intro h
+    cases l with
+    | nil => rfl
+    | cons y ys =>
+      have : y ∈ pySet (y :: ys) := (mem_pySet y _).mpr List.mem_cons_self
+      rw [h] at this; cases this
+  · rintro rfl; rfl
+
+/-- `len(set(l)) == 1` with element `p`  ⇔  `l` is non-empty and all its
+members equal `p` -/
+theorem pySet_eq_singleton (l : List α) (p : α) :
+    pySet l = [p] ↔ l ≠ [] ∧ ∀ w ∈ l, w = p := by
+  induction l with
+  | nil => simp [pySet]
+  | cons y ys ih =>
+    have hc : pySet (y :: ys) = if y ∈ pySet ys then pySet ys else y :: pySet ys := rfl
+    rw [hc]
+    by_cases h : y ∈ pySet ys
+    · rw [if_pos h]
+      constructor
+      · intro hs
+        have hy : y = p := by rw [hs] at h; simpa using h
+        obtain ⟨_, hall⟩ := ih.mp hs
+        refine ⟨List.cons_ne_nil _ _, ?_⟩
+        intro w hw
+        rcases List.mem_cons.mp hw with rfl | hw
+        · exact hy
+        · exact hall w hw
+      · rintro ⟨_, hall⟩
+        have hne : ys ≠ [] := by
+          intro e; subst e; simp [pySet] at h
+        exact ih.mpr ⟨hne, fun w hw => hall w (List.mem_cons_of_mem _ hw)⟩
+    · rw [if_neg h]
+      constructor
+      · intro hs
+        have hy : y = p := by injection hs
+        have hnil : pySet ys = [] := by injection hs
+        have : ys = [] := (pySet_eq_nil ys).mp hnil
+        subst this
+        exact ⟨List.cons_ne_nil _ _, by intro w hw; simpa [hy] using hw⟩
+      · rintro ⟨_, hall⟩
+        have hy : y = p := hall y List.mem_cons_self
+        cases ys with
+        | nil => simp [pySet, hy]
+        | cons z zs =>
+          exfalso
+          have hz : z = p := hall z (by simp)
+          apply h
+          rw [mem_pySet, hy, hz]
+          exact List.mem_cons_self
+
+/-- T1: `_lca_multi_way` transcribed from the current source (filter, `set`,
+`len(...) == 1` / `pop()`, membership cascade, flag with its default) equals
+the model, for every value type, LCA list and flag value. -/
+theorem lca_multi_way_gen_eq (b : α) (ls : List α) (o t : α) (a : Bool) :
+    lcaMultiWayGen (b, ls) o t a = lcaMultiWay b ls o t a := by
+  unfold lcaMultiWayGen lcaMultiWay
+  by_cases hot : o = t
+  · rw [if_pos hot, if_pos hot]
+  · rw [if_neg hot, if_neg hot]
+    simp only [three_way_gen_eq]
+    cases hf : ls.filter (fun v => decide (v ≠ b)) with
+    | nil => simp
+    | cons v rest =>
+      have hne : ¬ (v :: rest) = [] := List.cons_ne_nil v rest
+      simp only [hne, if_false]
+      by_cases hall : rest.all (fun w => decide (w = v)) = true
+      · have hs : pySet (v :: rest) = [v] := by
+          rw [pySet_eq_singleton]
+          refine ⟨List.cons_ne_nil _ _, ?_⟩
+          intro w hw
+          rcases List.mem_cons.mp hw with rfl | hw
+          · rfl
+          · exact of_decide_eq_true ((List.all_eq_true.mp hall) w hw)
+        rw [hs]
+        simp only [hall, if_true]
+      · have hns : ∀ p, pySet (v :: rest) ≠ [p] := by
+          intro p hp
+          obtain ⟨_, hp⟩ := (pySet_eq_singleton _ _).mp hp
+          apply hall
+          have hv : v = p := hp v List.mem_cons_self
+          rw [List.all_eq_true]
+          intro w hw
+          exact decide_eq_true ((hp w (List.mem_cons_of_mem _ hw)).trans hv.symm)
+        simp only [hall]
+        -- the one-element pattern cannot match (`hns` discharges the match equation)
+        simp only [mem_pySet]
+        cases a <;> simp
+
+/-- the flag's default in the source is `True`, as in the model -/
+theorem lca_multi_way_gen_default (b : α) (ls : List α) (o t : α) :
+    lcaMultiWayGen (b, ls) o t = lcaMultiWay b ls o t := lca_multi_way_gen_eq b ls o t true
 
 end BreezyVerif.C18
